@@ -16,7 +16,7 @@ missed=0; caught=0; skipped=0
 for s in $seeds; do
   d="$root/seeded/$s"
   [ -f "$d/patch.diff" ] || continue
-  ids=$(jq -r '.detected_by // .property' "$d/meta.json" | tr -c 'A-Z0-9\n' ' ' | tr ' ' '\n' | grep '^C[0-9][0-9]$' | sort -u | head -1)
+  ids=$(jq -r '.detected_by // .property' "$d/meta.json" | tr -c 'A-Z0-9\n' ' ' | tr ' ' '\n' | grep '^C[0-9][0-9]$' | head -1)
   [ -n "$ids" ] || ids=$(jq -r .property "$d/meta.json")
   if ! git -C "$scratch/repo" apply "$d/patch.diff" 2>/dev/null && ! { git -C "$scratch/repo" apply --3way "$d/patch.diff" >/dev/null 2>&1 && git -C "$scratch/repo" reset -q && [ -z "$(git -C "$scratch/repo" diff --name-only --diff-filter=U)" ] && ! grep -rl "^<<<<<<<" $(git -C "$scratch/repo" diff --name-only | sed "s|^|$scratch/repo/|") >/dev/null 2>&1; }; then
     git -C "$scratch/repo" checkout -q -- . 2>/dev/null
